@@ -1,31 +1,654 @@
 package interp
 
-// Structural stub of encoding/json.Marshal (encoder only).  encoding/json is
-// reflection driven and cannot be interpreted; for properties that only observe
-// the *order and structure* cedar-go's own code feeds into the encoder (C14) the
-// stub renders a value deterministically from its static/dynamic type: it calls
-// interpreted MarshalJSON methods, honours json struct tags (name, omitempty,
-// "-"), inlines embedded structs, sorts map keys like encoding/json does, and
-// preserves slice order.  String escaping and number formatting details of the
-// real encoder are NOT modelled (strings are emitted between quotes verbatim).
+// Structural model of encoding/json (Marshal, Unmarshal, (*Decoder).Decode).
+//
+// encoding/json is reflection driven and cannot be interpreted by the SSA
+// executor.  It is *environment* for cedar-go: the code under verification is
+// cedar-go's own MarshalJSON / UnmarshalJSON methods, struct layouts and tags,
+// which encoding/json merely walks.  This file is that walker, re-implemented
+// over the executor's value representation and go/types information:
+//
+//   - encoder: Marshaler / TextMarshaler dispatch (with addressability), struct
+//     tags (name, omitempty, "-"), embedded structs with Go's dominance rule,
+//     sorted map keys, the exact string escaping of encoding/json (HTML safe,
+//     U+2028/9, U+FFFD for invalid UTF-8), re-validation and compaction of
+//     Marshaler output.
+//   - decoder: a JSON scanner over possibly symbolic bytes (every test on a
+//     symbolic byte is a solver-decided fork), then reflect-free assignment that
+//     follows decode.go: indirect() with its null rules, Unmarshaler /
+//     TextUnmarshaler dispatch with the raw value bytes, exact-then-case-folded
+//     field matching, DisallowUnknownFields, UseNumber, saved (non-fatal) type
+//     errors versus fatal Unmarshaler errors, duplicate keys, null handling.
+//
+// Not modelled: ",string" options, []byte<->base64, floats with symbolic digits,
+// Unicode (non-ASCII) case folding of *symbolic* keys, error message texts other
+// than the "json: unknown field" prefix cedar-go inspects, reflect.Type in
+// UnmarshalTypeError (a plain error value is returned), streaming reads of a
+// Decoder (the reader is drained on the first Decode).  Each of those raises an
+// engine error (inconclusive), never a verdict.  The model is validated by a
+// self-test harness whose expectations were produced by the real package and
+// by the native replay of every reported violation.
 
 import (
 	"fmt"
 	"go/token"
 	"go/types"
+	"math"
 	"reflect"
 	"sort"
 	"strconv"
+	"strings"
+	"unicode/utf16"
+	"unicode/utf8"
+
+	"golang.org/x/tools/go/ssa"
 )
 
 func init() {
 	externals["encoding/json.Marshal"] = extJSONMarshal
+	externals["encoding/json.Unmarshal"] = extJSONUnmarshal
+	externals["(*encoding/json.Decoder).Decode"] = extJSONDecoderDecode
+	externals["encoding/json.Valid"] = func(fr *frame, a []value) value {
+		p := &jsonParser{fr: fr, d: mustBytes(a[0])}
+		_, err := p.parseDocument(true)
+		return err == nil
+	}
 }
+
+// ---------------------------------------------------------------- fields
+
+type jsonField struct {
+	name      string
+	index     []int
+	typ       types.Type
+	omitEmpty bool
+	quoted    bool
+	tagged    bool
+}
+
+func parseJSONTag(tag string) (name, opts string) {
+	t := reflect.StructTag(tag).Get("json")
+	if k := strings.IndexByte(t, ','); k >= 0 {
+		return t[:k], t[k+1:]
+	}
+	return t, ""
+}
+
+func jsonTagOpt(opts, o string) bool {
+	for opts != "" {
+		var s string
+		if k := strings.IndexByte(opts, ','); k >= 0 {
+			s, opts = opts[:k], opts[k+1:]
+		} else {
+			s, opts = opts, ""
+		}
+		if s == o {
+			return true
+		}
+	}
+	return false
+}
+
+func validJSONTagName(s string) bool {
+	if s == "" {
+		return false
+	}
+	for _, c := range s {
+		switch {
+		case strings.ContainsRune("!#$%&()*+-./:;<=>?@[]^_{|}~ ", c):
+		case !(c >= '0' && c <= '9' || c >= 'a' && c <= 'z' || c >= 'A' && c <= 'Z' || c > 0x7f):
+			return false
+		}
+	}
+	return true
+}
+
+var jsonFieldCache = map[*types.Struct][]jsonField{}
+
+// jsonFields follows encoding/json.typeFields: breadth-first over embedded
+// structs, shallowest name wins, a tagged field beats untagged ones at the same
+// depth, otherwise the name is dropped; result ordered by index sequence.
+func jsonFields(st *types.Struct) []jsonField {
+	if f, ok := jsonFieldCache[st]; ok {
+		return f
+	}
+	type cand struct {
+		st    *types.Struct
+		index []int
+	}
+	var all []jsonField
+	cur := []cand{}
+	next := []cand{{st, nil}}
+	visited := map[*types.Struct]bool{}
+	for len(next) > 0 {
+		cur, next = next, nil
+		for _, c := range cur {
+			if visited[c.st] {
+				continue
+			}
+			visited[c.st] = true
+			for i := 0; i < c.st.NumFields(); i++ {
+				f := c.st.Field(i)
+				ft := f.Type()
+				if f.Anonymous() {
+					t := ft
+					if p, ok := t.Underlying().(*types.Pointer); ok {
+						t = p.Elem()
+					}
+					if _, isStruct := t.Underlying().(*types.Struct); !f.Exported() && !isStruct {
+						continue
+					}
+				} else if !f.Exported() {
+					continue
+				}
+				rawTag := reflect.StructTag(c.st.Tag(i)).Get("json")
+				if rawTag == "-" {
+					continue
+				}
+				name, opts := parseJSONTag(c.st.Tag(i))
+				if !validJSONTagName(name) {
+					name = ""
+				}
+				idx := append(append([]int{}, c.index...), i)
+				t := ft
+				if p, ok := t.Underlying().(*types.Pointer); ok && isUnnamedOrAnon(f) {
+					t = p.Elem()
+				}
+				est, isStruct := t.Underlying().(*types.Struct)
+				if name != "" || !f.Anonymous() || !isStruct {
+					tagged := name != ""
+					if name == "" {
+						name = f.Name()
+					}
+					all = append(all, jsonField{name: name, index: idx, typ: ft, omitEmpty: jsonTagOpt(opts, "omitempty"), quoted: jsonTagOpt(opts, "string"), tagged: tagged})
+					continue
+				}
+				next = append(next, cand{est, idx})
+			}
+		}
+	}
+	sort.SliceStable(all, func(i, j int) bool {
+		if all[i].name != all[j].name {
+			return all[i].name < all[j].name
+		}
+		if len(all[i].index) != len(all[j].index) {
+			return len(all[i].index) < len(all[j].index)
+		}
+		if all[i].tagged != all[j].tagged {
+			return all[i].tagged
+		}
+		return lessIndex(all[i].index, all[j].index)
+	})
+	var out []jsonField
+	for i := 0; i < len(all); {
+		j := i + 1
+		for j < len(all) && all[j].name == all[i].name {
+			j++
+		}
+		if j == i+1 {
+			out = append(out, all[i])
+		} else {
+			// dominant field
+			a, b := all[i], all[i+1]
+			if len(a.index) != len(b.index) || a.tagged != b.tagged {
+				out = append(out, a)
+			}
+		}
+		i = j
+	}
+	sort.SliceStable(out, func(i, j int) bool { return lessIndex(out[i].index, out[j].index) })
+	jsonFieldCache[st] = out
+	return out
+}
+
+func isUnnamedOrAnon(f *types.Var) bool { return f.Anonymous() }
+
+func lessIndex(a, b []int) bool {
+	for k := 0; k < len(a) && k < len(b); k++ {
+		if a[k] != b[k] {
+			return a[k] < b[k]
+		}
+	}
+	return len(a) < len(b)
+}
+
+// fieldSlot walks an index path from a struct slot; nil embedded pointers are
+// allocated when alloc is set (an unexported one cannot be set: ok=false and
+// unexported=true), otherwise ok=false is returned.
+func fieldSlot(slot *value, st types.Type, index []int, alloc bool) (res *value, ok bool, unexported types.Type) {
+	t := st
+	exported := true
+	for _, ix := range index {
+		if p, isP := t.Underlying().(*types.Pointer); isP {
+			pv, _ := (*slot).(*value)
+			if pv == nil {
+				if !alloc {
+					return nil, false, nil
+				}
+				if !exported {
+					return nil, false, p.Elem()
+				}
+				pv = new(value)
+				*pv = zero(p.Elem())
+				*slot = pv
+			}
+			slot, t = pv, p.Elem()
+		}
+		s := (*slot).(structure)
+		slot = &s[ix]
+		f := t.Underlying().(*types.Struct).Field(ix)
+		t = f.Type()
+		exported = f.Exported()
+	}
+	return slot, true, nil
+}
+
+// ---------------------------------------------------------------- errors
+
+func jsonPlainError(fr *frame, msg string) iface {
+	errorsPkg := fr.i.prog.ImportedPackage("errors")
+	if errorsPkg == nil {
+		panic(engineError{"json stub: package errors not loaded"})
+	}
+	return call(fr.i, fr, token.NoPos, errorsPkg.Func("New"), []value{msg}).(iface)
+}
+
+func jsonSyntaxError(fr *frame, msg string, off int) iface {
+	pkg := fr.i.prog.ImportedPackage("encoding/json")
+	if pkg == nil || pkg.Type("SyntaxError") == nil {
+		return jsonPlainError(fr, msg)
+	}
+	var st value = structure{msg, int64(off)}
+	return iface{t: types.NewPointer(pkg.Type("SyntaxError").Type()), v: &st}
+}
+
+type jsonAbort struct{ err iface }
+
+// ---------------------------------------------------------------- scanner
+
+type jnode struct {
+	kind       byte // n t f s 0 [ {
+	start, end int
+	str        []value // decoded content of a string
+	keys       []*jnode
+	elems      []*jnode
+}
+
+type jsonSyntax struct {
+	msg string
+	off int
+}
+
+type jsonParser struct {
+	fr    *frame
+	d     []value
+	pos   int
+	depth int
+}
+
+func (p *jsonParser) fail(format string, args ...interface{}) {
+	panic(jsonSyntax{"json: " + fmt.Sprintf(format, args...), p.pos})
+}
+
+func (p *jsonParser) is(i int, c byte) bool {
+	switch x := p.d[i].(type) {
+	case byte:
+		return x == c
+	case *Term:
+		return p.fr.i.ex.decide(mkEq(x, mkConst(uint64(c), 8, false)))
+	}
+	panic(engineError{fmt.Sprintf("json stub: byte of type %T", p.d[i])})
+}
+
+func (p *jsonParser) in(i int, lo, hi byte) bool {
+	switch x := p.d[i].(type) {
+	case byte:
+		return lo <= x && x <= hi
+	case *Term:
+		return p.fr.i.ex.decide(mkAnd(mkLe(mkConst(uint64(lo), 8, false), x), mkLe(x, mkConst(uint64(hi), 8, false))))
+	}
+	panic(engineError{fmt.Sprintf("json stub: byte of type %T", p.d[i])})
+}
+
+func (p *jsonParser) isWS(i int) bool {
+	switch x := p.d[i].(type) {
+	case byte:
+		return x == ' ' || x == '\t' || x == '\r' || x == '\n'
+	case *Term:
+		e := func(c byte) *Term { return mkEq(x, mkConst(uint64(c), 8, false)) }
+		return p.fr.i.ex.decide(mkOr(mkOr(e(' '), e('\t')), mkOr(e('\r'), e('\n'))))
+	}
+	panic(engineError{fmt.Sprintf("json stub: byte of type %T", p.d[i])})
+}
+
+func (p *jsonParser) skipWS() {
+	for p.pos < len(p.d) && p.isWS(p.pos) {
+		p.pos++
+	}
+}
+
+// parseDocument parses one value; with whole set, trailing non-space is an error.
+func (p *jsonParser) parseDocument(whole bool) (n *jnode, err *jsonSyntax) {
+	defer func() {
+		if r := recover(); r != nil {
+			if se, ok := r.(jsonSyntax); ok {
+				n, err = nil, &se
+				return
+			}
+			panic(r)
+		}
+	}()
+	n = p.parseValue()
+	if whole {
+		p.skipWS()
+		if p.pos < len(p.d) {
+			p.fail("invalid character after top-level value")
+		}
+	}
+	return n, nil
+}
+
+func (p *jsonParser) parseValue() *jnode {
+	p.skipWS()
+	if p.pos >= len(p.d) {
+		p.fail("unexpected end of JSON input")
+	}
+	p.depth++
+	if p.depth > 10000 {
+		p.fail("exceeded max depth")
+	}
+	defer func() { p.depth-- }()
+	i := p.pos
+	switch {
+	case p.is(i, '{'):
+		return p.parseObject()
+	case p.is(i, '['):
+		return p.parseArray()
+	case p.is(i, '"'):
+		return p.parseString()
+	case p.is(i, '-') || p.in(i, '0', '9'):
+		return p.parseNumber()
+	case p.is(i, 't'):
+		return p.parseLit("true", 't')
+	case p.is(i, 'f'):
+		return p.parseLit("false", 'f')
+	case p.is(i, 'n'):
+		return p.parseLit("null", 'n')
+	}
+	p.fail("invalid character looking for beginning of value")
+	return nil
+}
+
+func (p *jsonParser) parseLit(word string, kind byte) *jnode {
+	start := p.pos
+	for k := 0; k < len(word); k++ {
+		if p.pos >= len(p.d) {
+			p.fail("unexpected end of JSON input")
+		}
+		if !p.is(p.pos, word[k]) {
+			p.fail("invalid character in literal %s", word)
+		}
+		p.pos++
+	}
+	return &jnode{kind: kind, start: start, end: p.pos}
+}
+
+func (p *jsonParser) parseNumber() *jnode {
+	start := p.pos
+	more := func() bool { return p.pos < len(p.d) }
+	if p.is(p.pos, '-') {
+		p.pos++
+		if !more() {
+			p.fail("unexpected end of JSON input")
+		}
+	}
+	switch {
+	case p.is(p.pos, '0'):
+		p.pos++
+	case p.in(p.pos, '1', '9'):
+		p.pos++
+		for more() && p.in(p.pos, '0', '9') {
+			p.pos++
+		}
+	default:
+		p.fail("invalid character in numeric literal")
+	}
+	if more() && p.is(p.pos, '.') {
+		p.pos++
+		if !more() {
+			p.fail("unexpected end of JSON input")
+		}
+		if !p.in(p.pos, '0', '9') {
+			p.fail("invalid character after decimal point in numeric literal")
+		}
+		for more() && p.in(p.pos, '0', '9') {
+			p.pos++
+		}
+	}
+	if more() && (p.is(p.pos, 'e') || p.is(p.pos, 'E')) {
+		p.pos++
+		if !more() {
+			p.fail("unexpected end of JSON input")
+		}
+		if p.is(p.pos, '+') || p.is(p.pos, '-') {
+			p.pos++
+			if !more() {
+				p.fail("unexpected end of JSON input")
+			}
+		}
+		if !p.in(p.pos, '0', '9') {
+			p.fail("invalid character in exponent of numeric literal")
+		}
+		for more() && p.in(p.pos, '0', '9') {
+			p.pos++
+		}
+	}
+	return &jnode{kind: '0', start: start, end: p.pos}
+}
+
+func (p *jsonParser) hex4(at int) (rune, bool) {
+	var r rune
+	for k := 0; k < 4; k++ {
+		i := at + k
+		if i >= len(p.d) {
+			p.pos = i
+			p.fail("unexpected end of JSON input")
+		}
+		var c byte
+		switch x := p.d[i].(type) {
+		case byte:
+			c = x
+		case *Term:
+			ok := p.in(i, '0', '9') || p.in(i, 'a', 'f') || p.in(i, 'A', 'F')
+			if !ok {
+				p.pos = i
+				p.fail("invalid character in \\u hexadecimal character escape")
+			}
+			c = p.fr.concTermSmall(x).(byte)
+		}
+		switch {
+		case '0' <= c && c <= '9':
+			c = c - '0'
+		case 'a' <= c && c <= 'f':
+			c = c - 'a' + 10
+		case 'A' <= c && c <= 'F':
+			c = c - 'A' + 10
+		default:
+			p.pos = i
+			p.fail("invalid character in \\u hexadecimal character escape")
+		}
+		r = r*16 + rune(c)
+	}
+	return r, true
+}
+
+func (p *jsonParser) parseString() *jnode {
+	start := p.pos
+	p.pos++ // opening quote
+	var out []value
+	emitRune := func(r rune) {
+		var buf [4]byte
+		n := utf8.EncodeRune(buf[:], r)
+		for _, b := range buf[:n] {
+			out = append(out, b)
+		}
+	}
+	for {
+		if p.pos >= len(p.d) {
+			p.fail("unexpected end of JSON input")
+		}
+		i := p.pos
+		switch {
+		case p.is(i, '"'):
+			p.pos++
+			if out == nil {
+				out = []value{}
+			}
+			return &jnode{kind: 's', start: start, end: p.pos, str: out}
+		case p.is(i, '\\'):
+			if i+1 >= len(p.d) {
+				p.pos = len(p.d)
+				p.fail("unexpected end of JSON input")
+			}
+			j := i + 1
+			switch {
+			case p.is(j, '"'):
+				out = append(out, byte('"'))
+			case p.is(j, '\\'):
+				out = append(out, byte('\\'))
+			case p.is(j, '/'):
+				out = append(out, byte('/'))
+			case p.is(j, 'b'):
+				out = append(out, byte('\b'))
+			case p.is(j, 'f'):
+				out = append(out, byte('\f'))
+			case p.is(j, 'n'):
+				out = append(out, byte('\n'))
+			case p.is(j, 'r'):
+				out = append(out, byte('\r'))
+			case p.is(j, 't'):
+				out = append(out, byte('\t'))
+			case p.is(j, 'u'):
+				r, _ := p.hex4(j + 1)
+				p.pos = j + 5
+				if utf16.IsSurrogate(r) {
+					// a following \uXXXX low surrogate combines
+					if p.pos+1 < len(p.d) && p.is(p.pos, '\\') && p.is(p.pos+1, 'u') {
+						save := p.pos
+						r2, _ := p.hex4(p.pos + 2)
+						if dec := utf16.DecodeRune(r, r2); dec != utf8.RuneError {
+							p.pos += 6
+							emitRune(dec)
+							continue
+						}
+						p.pos = save
+					}
+					r = utf8.RuneError
+				}
+				emitRune(r)
+				continue
+			default:
+				p.pos = j
+				p.fail("invalid character in string escape code")
+			}
+			p.pos = j + 1
+		case p.in(i, 0, 0x1f):
+			p.fail("invalid character in string literal")
+		case p.in(i, 0x20, 0x7f):
+			out = append(out, p.d[i])
+			p.pos++
+		default:
+			r, size := decodeRuneSym(p.fr, p.d[i:])
+			if rc, ok := r.(rune); ok && rc == utf8.RuneError && size == 1 {
+				emitRune(utf8.RuneError)
+			} else {
+				out = append(out, p.d[i:i+size]...)
+			}
+			p.pos += size
+		}
+	}
+}
+
+func (p *jsonParser) parseArray() *jnode {
+	n := &jnode{kind: '[', start: p.pos}
+	p.pos++
+	p.skipWS()
+	if p.pos < len(p.d) && p.is(p.pos, ']') {
+		p.pos++
+		n.end = p.pos
+		return n
+	}
+	for {
+		n.elems = append(n.elems, p.parseValue())
+		p.skipWS()
+		if p.pos >= len(p.d) {
+			p.fail("unexpected end of JSON input")
+		}
+		if p.is(p.pos, ',') {
+			p.pos++
+			continue
+		}
+		if p.is(p.pos, ']') {
+			p.pos++
+			n.end = p.pos
+			return n
+		}
+		p.fail("invalid character after array element")
+	}
+}
+
+func (p *jsonParser) parseObject() *jnode {
+	n := &jnode{kind: '{', start: p.pos}
+	p.pos++
+	p.skipWS()
+	if p.pos < len(p.d) && p.is(p.pos, '}') {
+		p.pos++
+		n.end = p.pos
+		return n
+	}
+	for {
+		p.skipWS()
+		if p.pos >= len(p.d) {
+			p.fail("unexpected end of JSON input")
+		}
+		if !p.is(p.pos, '"') {
+			p.fail("invalid character looking for beginning of object key string")
+		}
+		k := p.parseString()
+		p.skipWS()
+		if p.pos >= len(p.d) {
+			p.fail("unexpected end of JSON input")
+		}
+		if !p.is(p.pos, ':') {
+			p.fail("invalid character after object key")
+		}
+		p.pos++
+		v := p.parseValue()
+		n.keys = append(n.keys, k)
+		n.elems = append(n.elems, v)
+		p.skipWS()
+		if p.pos >= len(p.d) {
+			p.fail("unexpected end of JSON input")
+		}
+		if p.is(p.pos, ',') {
+			p.pos++
+			continue
+		}
+		if p.is(p.pos, '}') {
+			p.pos++
+			n.end = p.pos
+			return n
+		}
+		p.fail("invalid character after object key:value pair")
+	}
+}
+
+// ---------------------------------------------------------------- encoder
 
 type jsonEnc struct {
 	fr  *frame
 	out []value
-	err value // first error returned by an interpreted MarshalJSON
+	err value // first error returned by an interpreted method
 }
 
 func (e *jsonEnc) str(s string) { e.out = append(e.out, strBytes(s)...) }
@@ -33,7 +656,7 @@ func (e *jsonEnc) str(s string) { e.out = append(e.out, strBytes(s)...) }
 func extJSONMarshal(fr *frame, a []value) value {
 	e := &jsonEnc{fr: fr}
 	it := a[0].(iface)
-	e.encode(it.v, it.t, 0)
+	e.encode(it.v, it.t, false, 0)
 	if e.err != nil {
 		return tuple{[]value(nil), e.err}
 	}
@@ -56,10 +679,16 @@ func isEmptyJSON(v value) bool {
 		return len(x) == 0
 	case *omap:
 		return x.len() == 0
+	case array:
+		return len(x) == 0
 	case *Term:
 		return false
 	case nil:
 		return true
+	case float64:
+		return x == 0
+	case float32:
+		return x == 0
 	}
 	if isScalar(v) {
 		return asInt64OrZero(v) == 0
@@ -72,11 +701,221 @@ func asInt64OrZero(v value) int64 {
 	return asInt64(v)
 }
 
-func (e *jsonEnc) encode(v value, t types.Type, depth int) {
+const jsonHex = "0123456789abcdef"
+
+// appendJSONString is encoding/json.appendString with escapeHTML=true over
+// possibly symbolic bytes.
+func (e *jsonEnc) appendJSONString(b []value) {
+	p := &jsonParser{fr: e.fr, d: b}
+	e.str(`"`)
+	for i := 0; i < len(b); {
+		if c, ok := b[i].(byte); ok && c < utf8.RuneSelf {
+			e.escapeASCII(c)
+			i++
+			continue
+		}
+		if _, isT := b[i].(*Term); isT && p.in(i, 0, 0x7f) {
+			e.escapeASCIISym(p, i)
+			i++
+			continue
+		}
+		r, size := decodeRuneSym(e.fr, b[i:])
+		if rc, ok := r.(rune); ok {
+			if rc == utf8.RuneError && size == 1 {
+				e.str("\\ufffd")
+				i += size
+				continue
+			}
+			if rc == 0x2028 || rc == 0x2029 {
+				e.str(`\u202`)
+				e.out = append(e.out, jsonHex[rc&0xF])
+				i += size
+				continue
+			}
+		} else if rt, ok := r.(*Term); ok {
+			ex := e.fr.i.ex
+			if ex.decide(mkEq(rt, mkConst(0x2028, 32, true))) {
+				e.str("\\u2028")
+				i += size
+				continue
+			}
+			if ex.decide(mkEq(rt, mkConst(0x2029, 32, true))) {
+				e.str("\\u2029")
+				i += size
+				continue
+			}
+		}
+		e.out = append(e.out, b[i:i+size]...)
+		i += size
+	}
+	e.str(`"`)
+}
+
+func (e *jsonEnc) escapeASCII(c byte) {
+	switch {
+	case c == '\\' || c == '"':
+		e.out = append(e.out, byte('\\'), c)
+	case c == '\b':
+		e.str(`\b`)
+	case c == '\f':
+		e.str(`\f`)
+	case c == '\n':
+		e.str(`\n`)
+	case c == '\r':
+		e.str(`\r`)
+	case c == '\t':
+		e.str(`\t`)
+	case c < 0x20 || c == '<' || c == '>' || c == '&':
+		e.str(`\u00`)
+		e.out = append(e.out, jsonHex[c>>4], jsonHex[c&0xF])
+	default:
+		e.out = append(e.out, c)
+	}
+}
+
+// escapeASCIISym: the byte at i is a term known to be < 0x80.
+func (e *jsonEnc) escapeASCIISym(p *jsonParser, i int) {
+	for _, c := range []byte{'\\', '"', '\b', '\f', '\n', '\r', '\t', '<', '>', '&'} {
+		if p.is(i, c) {
+			e.escapeASCII(c)
+			return
+		}
+	}
+	if p.in(i, 0, 0x1f) {
+		e.str(`\u00`)
+		x := p.d[i].(*Term)
+		hi := mk(OpShr, 8, false, x, mkConst(4, 8, false))
+		lo := mk(OpAnd, 8, false, x, mkConst(15, 8, false))
+		dig := func(d *Term) value {
+			isLetter := mkLt(mkConst(9, 8, false), d)
+			return termToValue(mkIte(isLetter, mk(OpAdd, 8, false, d, mkConst('a'-10, 8, false)), mk(OpAdd, 8, false, d, mkConst('0', 8, false))))
+		}
+		e.out = append(e.out, dig(hi), dig(lo))
+		return
+	}
+	e.out = append(e.out, p.d[i])
+}
+
+// compactNode re-emits a parsed Marshaler result the way encoding/json.compact
+// does: insignificant space removed, strings kept verbatim except for the HTML
+// and U+2028/9 escapes.
+func (e *jsonEnc) compactNode(d []value, n *jnode) {
+	switch n.kind {
+	case '{':
+		e.str("{")
+		for k := range n.keys {
+			if k > 0 {
+				e.str(",")
+			}
+			e.compactRawString(d[n.keys[k].start:n.keys[k].end])
+			e.str(":")
+			e.compactNode(d, n.elems[k])
+		}
+		e.str("}")
+	case '[':
+		e.str("[")
+		for k := range n.elems {
+			if k > 0 {
+				e.str(",")
+			}
+			e.compactNode(d, n.elems[k])
+		}
+		e.str("]")
+	case 's':
+		e.compactRawString(d[n.start:n.end])
+	default:
+		e.out = append(e.out, d[n.start:n.end]...)
+	}
+}
+
+func (e *jsonEnc) compactRawString(raw []value) {
+	p := &jsonParser{fr: e.fr, d: raw}
+	for i := 0; i < len(raw); i++ {
+		switch c := raw[i].(type) {
+		case byte:
+			if c == '<' || c == '>' || c == '&' {
+				e.str(`\u00`)
+				e.out = append(e.out, jsonHex[c>>4], jsonHex[c&0xF])
+				continue
+			}
+			if c == 0xE2 && i+2 < len(raw) {
+				if c1, ok := raw[i+1].(byte); ok && c1 == 0x80 {
+					if p.in(i+2, 0xA8, 0xA9) {
+						e.str(`\u202`)
+						if p.is(i+2, 0xA8) {
+							e.str("8")
+						} else {
+							e.str("9")
+						}
+						i += 2
+						continue
+					}
+				}
+			}
+			e.out = append(e.out, c)
+		case *Term:
+			done := false
+			for _, h := range []byte{'<', '>', '&'} {
+				if p.is(i, h) {
+					e.str(`\u00`)
+					e.out = append(e.out, jsonHex[h>>4], jsonHex[h&0xF])
+					done = true
+					break
+				}
+			}
+			if done {
+				continue
+			}
+			if i+2 < len(raw) && p.is(i, 0xE2) && p.is(i+1, 0x80) && p.in(i+2, 0xA8, 0xA9) {
+				e.str(`\u202`)
+				if p.is(i+2, 0xA8) {
+					e.str("8")
+				} else {
+					e.str("9")
+				}
+				i += 2
+				continue
+			}
+			e.out = append(e.out, c)
+		default:
+			panic(engineError{fmt.Sprintf("json stub: byte of type %T", raw[i])})
+		}
+	}
+}
+
+func methodWithSig(i *interpreter, t types.Type, name string, nparams, nresults int) *ssa.Function {
+	fn := findMethod(i, t, name)
+	if fn == nil || fn.Signature.Params().Len() != nparams || fn.Signature.Results().Len() != nresults {
+		return nil
+	}
+	return fn
+}
+
+func (e *jsonEnc) callMarshaler(fn *ssa.Function, recv value, t types.Type, text bool) {
+	r := call(e.fr.i, e.fr, token.NoPos, fn, []value{recv}).(tuple)
+	if errv, ok := r[1].(iface); ok && errv.t != nil {
+		e.err = errv
+		return
+	}
+	b, _ := r[0].([]value)
+	if text {
+		e.appendJSONString(b)
+		return
+	}
+	p := &jsonParser{fr: e.fr, d: b}
+	n, serr := p.parseDocument(true)
+	if serr != nil {
+		e.err = jsonPlainError(e.fr, "json: error calling MarshalJSON for type "+t.String()+": "+strings.TrimPrefix(serr.msg, "json: "))
+		return
+	}
+	e.compactNode(b, n)
+}
+
+func (e *jsonEnc) encode(v value, t types.Type, addressable bool, depth int) {
 	if e.err != nil {
 		return
 	}
-	if depth > 40 {
+	if depth > 60 {
 		panic(engineError{"json stub: nesting too deep"})
 	}
 	if t == nil {
@@ -90,60 +929,84 @@ func (e *jsonEnc) encode(v value, t types.Type, depth int) {
 			e.str("null")
 			return
 		}
-		e.encode(iv.v, iv.t, depth+1)
+		e.encode(iv.v, iv.t, false, depth+1)
 		return
 	}
 	// nil pointers encode as null before any method call
-	if _, isP := t.Underlying().(*types.Pointer); isP {
+	_, isPtr := t.Underlying().(*types.Pointer)
+	if isPtr {
 		if p, ok := v.(*value); ok && p == nil {
 			e.str("null")
 			return
 		}
 	}
-	if fn := findMethod(e.fr.i, t, "MarshalJSON"); fn != nil && fn.Signature.Params().Len() == 0 && fn.Signature.Results().Len() == 2 {
-		r := call(e.fr.i, e.fr, token.NoPos, fn, []value{v}).(tuple)
-		if errv, ok := r[1].(iface); ok && errv.t != nil {
-			e.err = errv
+	if fn := methodWithSig(e.fr.i, t, "MarshalJSON", 0, 2); fn != nil {
+		e.callMarshaler(fn, v, t, false)
+		return
+	}
+	if !isPtr && addressable {
+		if fn := methodWithSig(e.fr.i, types.NewPointer(t), "MarshalJSON", 0, 2); fn != nil {
+			cell := new(value)
+			*cell = v
+			e.callMarshaler(fn, cell, t, false)
 			return
 		}
-		b, _ := r[0].([]value)
-		e.out = append(e.out, b...)
+	}
+	if fn := methodWithSig(e.fr.i, t, "MarshalText", 0, 2); fn != nil {
+		e.callMarshaler(fn, v, t, true)
 		return
+	}
+	if !isPtr && addressable {
+		if fn := methodWithSig(e.fr.i, types.NewPointer(t), "MarshalText", 0, 2); fn != nil {
+			cell := new(value)
+			*cell = v
+			e.callMarshaler(fn, cell, t, true)
+			return
+		}
 	}
 	switch ut := t.Underlying().(type) {
 	case *types.Pointer:
 		p := v.(*value)
-		e.encode(*p, ut.Elem(), depth+1)
+		e.encode(*p, ut.Elem(), true, depth+1)
 	case *types.Basic:
-		switch x := v.(type) {
-		case string:
-			e.str(strconv.Quote(x))
-		case symString:
-			e.str("\"")
-			e.out = append(e.out, x.b...)
-			e.str("\"")
-		case bool:
-			e.str(strconv.FormatBool(x))
-		case *Term:
-			if x.w == 0 {
-				panic(engineError{"json stub: symbolic bool"})
+		if t.String() == "encoding/json.Number" {
+			b, _ := bytesOfString(v)
+			if len(b) == 0 {
+				e.str("0")
+				return
 			}
-			e.out = append(e.out, formatIntSym(e.fr, x, 0)...)
-		default:
-			if ut.Info()&types.IsInteger != 0 {
-				if ut.Info()&types.IsUnsigned != 0 {
-					e.str(strconv.FormatUint(uint64(asInt64(v)), 10))
-				} else {
-					e.str(strconv.FormatInt(asInt64(v), 10))
-				}
-			} else {
-				e.str(fmt.Sprint(v))
+			if !jsonIsValidNumber(e.fr, b) {
+				e.err = jsonPlainError(e.fr, "json: invalid number literal")
+				return
 			}
+			e.out = append(e.out, b...)
+			return
 		}
+		e.encodeBasic(v, ut)
 	case *types.Struct:
 		e.str("{")
 		first := true
-		e.structFields(v.(structure), ut, &first, depth)
+		cell := new(value)
+		*cell = v
+		for _, f := range jsonFields(ut) {
+			slot, ok, _ := fieldSlot(cell, t, f.index, false)
+			if !ok {
+				continue
+			}
+			if f.quoted {
+				panic(engineError{"json stub: ,string option"})
+			}
+			if f.omitEmpty && isEmptyJSON(*slot) {
+				continue
+			}
+			if !first {
+				e.str(",")
+			}
+			first = false
+			e.appendJSONString(strBytes(f.name))
+			e.str(":")
+			e.encode(*slot, f.typ, addressable, depth+1)
+		}
 		e.str("}")
 	case *types.Slice:
 		s, _ := v.([]value)
@@ -151,12 +1014,17 @@ func (e *jsonEnc) encode(v value, t types.Type, depth int) {
 			e.str("null")
 			return
 		}
+		if b, ok := ut.Elem().Underlying().(*types.Basic); ok && b.Kind() == types.Uint8 {
+			if methodWithSig(e.fr.i, types.NewPointer(ut.Elem()), "MarshalJSON", 0, 2) == nil {
+				panic(engineError{"json stub: []byte base64 encoding"})
+			}
+		}
 		e.str("[")
 		for i, x := range s {
 			if i > 0 {
 				e.str(",")
 			}
-			e.encode(x, ut.Elem(), depth+1)
+			e.encode(x, ut.Elem(), true, depth+1)
 		}
 		e.str("]")
 	case *types.Array:
@@ -165,7 +1033,7 @@ func (e *jsonEnc) encode(v value, t types.Type, depth int) {
 			if i > 0 {
 				e.str(",")
 			}
-			e.encode(x, ut.Elem(), depth+1)
+			e.encode(x, ut.Elem(), addressable, depth+1)
 		}
 		e.str("]")
 	case *types.Map:
@@ -175,28 +1043,53 @@ func (e *jsonEnc) encode(v value, t types.Type, depth int) {
 			return
 		}
 		type kv struct {
-			k string
+			k []value
 			v value
 		}
 		var kvs []kv
+		kb, _ := ut.Key().Underlying().(*types.Basic)
+		textFn := methodWithSig(e.fr.i, ut.Key(), "MarshalText", 0, 2)
 		for _, en := range m.entries {
 			if en.deleted {
 				continue
 			}
-			ks, ok := en.key.(string)
-			if !ok {
-				panic(engineError{"json stub: map key is not a concrete string"})
+			var ks []value
+			switch {
+			case kb != nil && kb.Kind() == types.String:
+				ks, _ = bytesOfString(en.key)
+			case textFn != nil:
+				r := call(e.fr.i, e.fr, token.NoPos, textFn, []value{en.key}).(tuple)
+				if errv, ok := r[1].(iface); ok && errv.t != nil {
+					e.err = errv
+					return
+				}
+				ks, _ = r[0].([]value)
+			case kb != nil && kb.Info()&types.IsInteger != 0:
+				if _, sym := en.key.(*Term); sym {
+					panic(engineError{"json stub: symbolic integer map key"})
+				}
+				if kb.Info()&types.IsUnsigned != 0 {
+					ks = strBytes(strconv.FormatUint(uint64(asInt64(en.key)), 10))
+				} else {
+					ks = strBytes(strconv.FormatInt(asInt64(en.key), 10))
+				}
+			default:
+				panic(engineError{fmt.Sprintf("json stub: unsupported map key type %s", ut.Key())})
 			}
 			kvs = append(kvs, kv{ks, en.val})
 		}
-		sort.Slice(kvs, func(i, j int) bool { return kvs[i].k < kvs[j].k })
+		sort.SliceStable(kvs, func(i, j int) bool { return strCompareSym(e.fr, kvs[i].k, kvs[j].k) < 0 })
 		e.str("{")
 		for i, p := range kvs {
 			if i > 0 {
 				e.str(",")
 			}
-			e.str(strconv.Quote(p.k) + ":")
-			e.encode(p.v, ut.Elem(), depth+1)
+			e.appendJSONString(p.k)
+			e.str(":")
+			e.encode(p.v, ut.Elem(), false, depth+1)
+			if e.err != nil {
+				return
+			}
 		}
 		e.str("}")
 	default:
@@ -204,40 +1097,686 @@ func (e *jsonEnc) encode(v value, t types.Type, depth int) {
 	}
 }
 
-func (e *jsonEnc) structFields(s structure, st *types.Struct, first *bool, depth int) {
-	for i := 0; i < st.NumFields(); i++ {
-		f := st.Field(i)
-		tag := reflect.StructTag(st.Tag(i)).Get("json")
-		name, opts := tag, ""
-		for k := 0; k < len(tag); k++ {
-			if tag[k] == ',' {
-				name, opts = tag[:k], tag[k+1:]
-				break
+func (e *jsonEnc) encodeBasic(v value, ut *types.Basic) {
+	switch x := v.(type) {
+	case string:
+		e.appendJSONString(strBytes(x))
+	case symString:
+		if x.opaque {
+			panic(engineError{"json stub: opaque formatted string"})
+		}
+		e.appendJSONString(x.b)
+	case bool:
+		e.str(strconv.FormatBool(x))
+	case *Term:
+		if x.w == 0 {
+			if e.fr.i.ex.decide(x) {
+				e.str("true")
+			} else {
+				e.str("false")
+			}
+			return
+		}
+		e.out = append(e.out, formatIntSym(e.fr, x, 0)...)
+	case float64:
+		e.str(jsonFloat(x, 64))
+	case float32:
+		e.str(jsonFloat(float64(x), 32))
+	default:
+		if ut.Info()&types.IsInteger != 0 {
+			if ut.Info()&types.IsUnsigned != 0 {
+				e.str(strconv.FormatUint(uint64(asInt64(v)), 10))
+			} else {
+				e.str(strconv.FormatInt(asInt64(v), 10))
+			}
+		} else {
+			panic(engineError{fmt.Sprintf("json stub: unsupported basic value %T", v)})
+		}
+	}
+}
+
+func jsonFloat(f float64, bits int) string {
+	if math.IsInf(f, 0) || math.IsNaN(f) {
+		panic(engineError{"json stub: unsupported float value"})
+	}
+	abs := math.Abs(f)
+	format := byte('f')
+	if abs != 0 {
+		if bits == 64 && (abs < 1e-6 || abs >= 1e21) || bits == 32 && (float32(abs) < 1e-6 || float32(abs) >= 1e21) {
+			format = 'e'
+		}
+	}
+	b := strconv.AppendFloat(nil, f, format, -1, bits)
+	if format == 'e' {
+		n := len(b)
+		if n >= 4 && b[n-4] == 'e' && (b[n-3] == '-' || b[n-3] == '+') && b[n-2] == '0' {
+			b[n-2] = b[n-1]
+			b = b[:n-1]
+		}
+	}
+	return string(b)
+}
+
+// ---------------------------------------------------------------- decoder
+
+type jsonDec struct {
+	fr        *frame
+	d         []value
+	useNumber bool
+	disallow  bool
+	saved     value // first non-fatal error
+}
+
+func (d *jsonDec) saveError(msg string) {
+	if d.saved == nil {
+		d.saved = jsonPlainError(d.fr, msg)
+	}
+}
+
+func (d *jsonDec) typeError(what string, t types.Type) {
+	d.saveError("json: cannot unmarshal " + what + " into Go value of type " + types.TypeString(t, func(p *types.Package) string { return p.Name() }))
+}
+
+func extJSONUnmarshal(fr *frame, a []value) value {
+	data := mustBytes(a[0])
+	dst := a[1].(iface)
+	p := &jsonParser{fr: fr, d: data}
+	n, serr := p.parseDocument(true)
+	if serr != nil {
+		return jsonSyntaxError(fr, strings.TrimPrefix(serr.msg, "json: "), serr.off)
+	}
+	return jsonDecodeTop(fr, data, n, dst, false, false)
+}
+
+func jsonDecodeTop(fr *frame, data []value, n *jnode, dst iface, useNumber, disallow bool) (res value) {
+	if dst.t == nil {
+		return jsonPlainError(fr, "json: Unmarshal(nil)")
+	}
+	pt, ok := dst.t.Underlying().(*types.Pointer)
+	if !ok {
+		return jsonPlainError(fr, "json: Unmarshal(non-pointer "+dst.t.String()+")")
+	}
+	ptr, _ := dst.v.(*value)
+	if ptr == nil {
+		return jsonPlainError(fr, "json: Unmarshal(nil "+dst.t.String()+")")
+	}
+	d := &jsonDec{fr: fr, d: data, useNumber: useNumber, disallow: disallow}
+	defer func() {
+		if r := recover(); r != nil {
+			if ab, ok := r.(jsonAbort); ok {
+				res = ab.err
+				return
+			}
+			panic(r)
+		}
+	}()
+	// the top-level pointer itself is not settable: its own methods are looked
+	// at first (also for null), then the pointee is an ordinary settable slot
+	if d.tryUnmarshaler(n, ptr, dst.t, n.kind == 'n') {
+		if d.saved != nil {
+			return d.saved
+		}
+		return iface{}
+	}
+	d.value(n, ptr, pt.Elem(), true)
+	if d.saved != nil {
+		return d.saved
+	}
+	return iface{}
+}
+
+// tryUnmarshaler: ptr is a non-nil pointer value of type ptrType.
+func (d *jsonDec) tryUnmarshaler(n *jnode, ptr *value, ptrType types.Type, null bool) bool {
+	if fn := methodWithSig(d.fr.i, ptrType, "UnmarshalJSON", 1, 1); fn != nil {
+		raw := append([]value{}, d.d[n.start:n.end]...)
+		r := call(d.fr.i, d.fr, token.NoPos, fn, []value{ptr, raw})
+		if errv, ok := r.(iface); ok && errv.t != nil {
+			panic(jsonAbort{errv})
+		}
+		return true
+	}
+	if !null {
+		if fn := methodWithSig(d.fr.i, ptrType, "UnmarshalText", 1, 1); fn != nil {
+			if n.kind != 's' {
+				d.typeError(jsonKindName(n), ptrType)
+				return true
+			}
+			r := call(d.fr.i, d.fr, token.NoPos, fn, []value{ptr, append([]value{}, n.str...)})
+			if errv, ok := r.(iface); ok && errv.t != nil {
+				panic(jsonAbort{errv})
+			}
+			return true
+		}
+	}
+	return false
+}
+
+func jsonKindName(n *jnode) string {
+	switch n.kind {
+	case 's':
+		return "string"
+	case '0':
+		return "number"
+	case 't', 'f':
+		return "bool"
+	case '[':
+		return "array"
+	case '{':
+		return "object"
+	}
+	return "null"
+}
+
+func hasTypeName(t types.Type) bool {
+	switch t := t.(type) {
+	case *types.Named:
+		return true
+	case *types.Basic:
+		return true
+	case *types.Alias:
+		return hasTypeName(types.Unalias(t))
+	}
+	return false
+}
+
+func isEmptyInterface(t types.Type) bool {
+	it, ok := t.Underlying().(*types.Interface)
+	return ok && it.NumMethods() == 0
+}
+
+// value stores node n into the settable slot of type t (decode.go: d.value).
+func (d *jsonDec) value(n *jnode, slot *value, t types.Type, settable bool) {
+	null := n.kind == 'n'
+	// ---- indirect ----
+	if _, isPtr := t.Underlying().(*types.Pointer); !isPtr && hasTypeName(t) {
+		if _, isBasic := t.(*types.Basic); !isBasic {
+			if d.tryUnmarshaler(n, slot, types.NewPointer(t), null) {
+				return
 			}
 		}
-		if tag == "-" {
-			continue
+	}
+	for {
+		if _, isI := t.Underlying().(*types.Interface); isI {
+			iv, _ := (*slot).(iface)
+			if iv.t != nil {
+				if ipt, ok := iv.t.Underlying().(*types.Pointer); ok {
+					if ip, _ := iv.v.(*value); ip != nil {
+						_, elemIsPtr := ipt.Elem().Underlying().(*types.Pointer)
+						if !null || elemIsPtr {
+							if d.tryUnmarshaler(n, ip, iv.t, null) {
+								return
+							}
+							slot, t, settable = ip, ipt.Elem(), true
+							continue
+						}
+					}
+				}
+			}
+			break
 		}
-		if f.Anonymous() && name == "" {
-			if est, ok := f.Type().Underlying().(*types.Struct); ok {
-				e.structFields(s[i].(structure), est, first, depth)
+		pt, ok := t.Underlying().(*types.Pointer)
+		if !ok {
+			break
+		}
+		if null && settable {
+			break
+		}
+		p, _ := (*slot).(*value)
+		if p == nil {
+			p = new(value)
+			*p = zero(pt.Elem())
+			*slot = p
+		}
+		if d.tryUnmarshaler(n, p, t, null) {
+			return
+		}
+		slot, t, settable = p, pt.Elem(), true
+	}
+	// ---- store ----
+	switch n.kind {
+	case 'n':
+		switch t.Underlying().(type) {
+		case *types.Interface, *types.Pointer, *types.Map, *types.Slice:
+			*slot = zero(t)
+		}
+	case 't', 'f':
+		b := n.kind == 't'
+		switch ut := t.Underlying().(type) {
+		case *types.Basic:
+			if ut.Kind() == types.Bool {
+				*slot = b
+				return
+			}
+			d.typeError("bool", t)
+		case *types.Interface:
+			if ut.NumMethods() == 0 {
+				*slot = iface{t: types.Typ[types.Bool], v: b}
+				return
+			}
+			d.typeError("bool", t)
+		default:
+			d.typeError("bool", t)
+		}
+	case 's':
+		switch ut := t.Underlying().(type) {
+		case *types.Basic:
+			if ut.Kind() == types.String {
+				if t.String() == "encoding/json.Number" && !jsonIsValidNumber(d.fr, n.str) {
+					panic(jsonAbort{jsonPlainError(d.fr, "json: invalid number literal, trying to unmarshal into Number")})
+				}
+				*slot = mkString(n.str)
+				return
+			}
+			d.typeError("string", t)
+		case *types.Interface:
+			if ut.NumMethods() == 0 {
+				*slot = iface{t: types.Typ[types.String], v: mkString(n.str)}
+				return
+			}
+			d.typeError("string", t)
+		case *types.Slice:
+			if b, ok := ut.Elem().Underlying().(*types.Basic); ok && b.Kind() == types.Uint8 {
+				panic(engineError{"json stub: base64 decoding into []byte"})
+			}
+			d.typeError("string", t)
+		default:
+			d.typeError("string", t)
+		}
+	case '0':
+		d.number(n, slot, t)
+	case '[':
+		d.array(n, slot, t)
+	case '{':
+		d.object(n, slot, t)
+	}
+}
+
+func jsonIsValidNumber(fr *frame, b []value) bool {
+	if len(b) == 0 {
+		return false
+	}
+	p := &jsonParser{fr: fr, d: b}
+	ok := func() (ok bool) {
+		defer func() {
+			if r := recover(); r != nil {
+				if _, is := r.(jsonSyntax); is {
+					ok = false
+					return
+				}
+				panic(r)
+			}
+		}()
+		if !(p.is(0, '-') || p.in(0, '0', '9')) {
+			return false
+		}
+		p.parseNumber()
+		return p.pos == len(b)
+	}()
+	return ok
+}
+
+func concreteBytes(b []value) (string, bool) {
+	buf := make([]byte, len(b))
+	for i, x := range b {
+		c, ok := x.(byte)
+		if !ok {
+			return "", false
+		}
+		buf[i] = c
+	}
+	return string(buf), true
+}
+
+func (d *jsonDec) number(n *jnode, slot *value, t types.Type) {
+	lit := d.d[n.start:n.end]
+	switch ut := t.Underlying().(type) {
+	case *types.Interface:
+		if ut.NumMethods() != 0 {
+			d.typeError("number", t)
+			return
+		}
+		if d.useNumber {
+			pkg := d.fr.i.prog.ImportedPackage("encoding/json")
+			*slot = iface{t: pkg.Type("Number").Type(), v: mkString(lit)}
+			return
+		}
+		s, ok := concreteBytes(lit)
+		if !ok {
+			panic(engineError{"json stub: symbolic number decoded as float64"})
+		}
+		f, err := strconv.ParseFloat(s, 64)
+		if err != nil {
+			d.typeError("number "+s, t)
+			return
+		}
+		*slot = iface{t: types.Typ[types.Float64], v: f}
+	case *types.Basic:
+		switch {
+		case ut.Kind() == types.String && t.String() == "encoding/json.Number":
+			*slot = mkString(lit)
+		case ut.Info()&types.IsInteger != 0:
+			bits := map[types.BasicKind]int{types.Int8: 8, types.Uint8: 8, types.Int16: 16, types.Uint16: 16, types.Int32: 32, types.Uint32: 32}[ut.Kind()]
+			if bits == 0 {
+				bits = 64
+			}
+			unsigned := ut.Info()&types.IsUnsigned != 0
+			if s, ok := concreteBytes(lit); ok {
+				if unsigned {
+					u, err := strconv.ParseUint(s, 10, bits)
+					if err != nil {
+						d.typeError("number "+s, t)
+						return
+					}
+					*slot = conv(t, types.Typ[types.Uint64], u)
+				} else {
+					i, err := strconv.ParseInt(s, 10, bits)
+					if err != nil {
+						d.typeError("number "+s, t)
+						return
+					}
+					*slot = conv(t, types.Typ[types.Int64], i)
+				}
+				return
+			}
+			// symbolic digits: run the interpreted strconv parser
+			pkg := d.fr.i.prog.ImportedPackage("strconv")
+			if pkg == nil {
+				panic(engineError{"json stub: strconv not loaded"})
+			}
+			name, src := "ParseInt", types.Typ[types.Int64]
+			if unsigned {
+				name, src = "ParseUint", types.Typ[types.Uint64]
+			}
+			r := call(d.fr.i, d.fr, token.NoPos, pkg.Func(name), []value{mkString(lit), int(10), int(bits)}).(tuple)
+			if errv, ok := r[1].(iface); ok && errv.t != nil {
+				d.typeError("number", t)
+				return
+			}
+			*slot = convSym(d.fr, t, src, r[0])
+		case ut.Info()&types.IsFloat != 0:
+			s, ok := concreteBytes(lit)
+			if !ok {
+				panic(engineError{"json stub: symbolic number decoded as float"})
+			}
+			bits := 64
+			if ut.Kind() == types.Float32 {
+				bits = 32
+			}
+			f, err := strconv.ParseFloat(s, bits)
+			if err != nil {
+				d.typeError("number "+s, t)
+				return
+			}
+			if bits == 32 {
+				*slot = float32(f)
+			} else {
+				*slot = f
+			}
+		default:
+			d.typeError("number", t)
+		}
+	default:
+		d.typeError("number", t)
+	}
+}
+
+var (
+	jsonAnyType      = types.NewInterfaceType(nil, nil).Complete()
+	jsonAnySliceType = types.NewSlice(jsonAnyType)
+	jsonAnyMapType   = types.NewMap(types.Typ[types.String], jsonAnyType)
+)
+
+func (d *jsonDec) anyValue(n *jnode) value {
+	cell := new(value)
+	*cell = iface{}
+	d.value(n, cell, jsonAnyType, true)
+	return *cell
+}
+
+func (d *jsonDec) array(n *jnode, slot *value, t types.Type) {
+	switch ut := t.Underlying().(type) {
+	case *types.Interface:
+		if ut.NumMethods() != 0 {
+			d.typeError("array", t)
+			return
+		}
+		out := make([]value, 0, len(n.elems))
+		for _, e := range n.elems {
+			out = append(out, d.anyValue(e))
+		}
+		*slot = iface{t: jsonAnySliceType, v: out}
+	case *types.Slice:
+		old, _ := (*slot).([]value)
+		out := make([]value, len(n.elems))
+		for i, e := range n.elems {
+			if i < len(old) {
+				out[i] = old[i]
+			} else {
+				out[i] = zero(ut.Elem())
+			}
+			d.value(e, &out[i], ut.Elem(), true)
+		}
+		*slot = out
+	case *types.Array:
+		a := (*slot).(array)
+		for i, e := range n.elems {
+			if i < len(a) {
+				d.value(e, &a[i], ut.Elem(), true)
+			}
+		}
+		for i := len(n.elems); i < len(a); i++ {
+			a[i] = zero(ut.Elem())
+		}
+	default:
+		d.typeError("array", t)
+	}
+}
+
+func (d *jsonDec) keyEquals(k []value, name string) bool {
+	if s, ok := concreteBytes(k); ok {
+		return s == name
+	}
+	if len(k) != len(name) {
+		return false
+	}
+	p := &jsonParser{fr: d.fr, d: k}
+	for i := range k {
+		if !p.is(i, name[i]) {
+			return false
+		}
+	}
+	return true
+}
+
+func (d *jsonDec) keyFoldEquals(k []value, name string) bool {
+	if s, ok := concreteBytes(k); ok {
+		return strings.EqualFold(s, name)
+	}
+	// symbolic key bytes: ASCII case folding only (see file comment)
+	if len(k) != len(name) {
+		return false
+	}
+	p := &jsonParser{fr: d.fr, d: k}
+	for i := range k {
+		c := name[i]
+		lo, up := c, c
+		if 'A' <= c && c <= 'Z' {
+			lo = c + 32
+		} else if 'a' <= c && c <= 'z' {
+			up = c - 32
+		}
+		if !(p.is(i, lo) || (up != lo && p.is(i, up))) {
+			return false
+		}
+	}
+	return true
+}
+
+func (d *jsonDec) object(n *jnode, slot *value, t types.Type) {
+	switch ut := t.Underlying().(type) {
+	case *types.Interface:
+		if ut.NumMethods() != 0 {
+			d.typeError("object", t)
+			return
+		}
+		m := &omap{idx: map[string]*oentry{}}
+		for k, key := range n.keys {
+			m.insert(d.fr, mkString(key.str), d.anyValue(n.elems[k]))
+		}
+		*slot = iface{t: jsonAnyMapType, v: m}
+	case *types.Map:
+		kb, _ := ut.Key().Underlying().(*types.Basic)
+		textFn := methodWithSig(d.fr.i, types.NewPointer(ut.Key()), "UnmarshalText", 1, 1)
+		switch {
+		case kb != nil && (kb.Kind() == types.String || kb.Info()&types.IsInteger != 0):
+		case textFn != nil:
+		default:
+			d.typeError("object", t)
+			return
+		}
+		m, _ := (*slot).(*omap)
+		if m == nil {
+			m = &omap{idx: map[string]*oentry{}}
+			*slot = m
+		}
+		for k, key := range n.keys {
+			cell := new(value)
+			*cell = zero(ut.Elem())
+			d.value(n.elems[k], cell, ut.Elem(), true)
+			var kv value
+			switch {
+			case textFn != nil && !(kb != nil && kb.Kind() == types.String):
+				kc := new(value)
+				*kc = zero(ut.Key())
+				r := call(d.fr.i, d.fr, token.NoPos, textFn, []value{kc, append([]value{}, key.str...)})
+				if errv, ok := r.(iface); ok && errv.t != nil {
+					panic(jsonAbort{errv})
+				}
+				kv = load(ut.Key(), kc)
+			case kb.Kind() == types.String:
+				kv = mkString(key.str)
+			default:
+				s, ok := concreteBytes(key.str)
+				if !ok {
+					panic(engineError{"json stub: symbolic integer map key"})
+				}
+				if kb.Info()&types.IsUnsigned != 0 {
+					u, err := strconv.ParseUint(s, 10, 64)
+					if err != nil {
+						d.typeError("number "+s, ut.Key())
+						continue
+					}
+					kv = conv(ut.Key(), types.Typ[types.Uint64], u)
+				} else {
+					i, err := strconv.ParseInt(s, 10, 64)
+					if err != nil {
+						d.typeError("number "+s, ut.Key())
+						continue
+					}
+					kv = conv(ut.Key(), types.Typ[types.Int64], i)
+				}
+			}
+			m.insert(d.fr, kv, load(ut.Elem(), cell))
+		}
+	case *types.Struct:
+		fields := jsonFields(ut)
+		for k, key := range n.keys {
+			var f *jsonField
+			for i := range fields {
+				if d.keyEquals(key.str, fields[i].name) {
+					f = &fields[i]
+					break
+				}
+			}
+			if f == nil {
+				for i := range fields {
+					if d.keyFoldEquals(key.str, fields[i].name) {
+						f = &fields[i]
+						break
+					}
+				}
+			}
+			if f == nil {
+				if d.disallow {
+					if s, ok := concreteBytes(key.str); ok {
+						d.saveError(fmt.Sprintf("json: unknown field %q", s))
+					} else {
+						d.saveError("json: unknown field \"<symbolic>\"")
+					}
+				}
 				continue
 			}
+			if f.quoted {
+				panic(engineError{"json stub: ,string option"})
+			}
+			fs, ok, unexp := fieldSlot(slot, t, f.index, true)
+			if !ok {
+				if unexp != nil {
+					d.saveError("json: cannot set embedded pointer to unexported struct: " + unexp.String())
+				}
+				continue
+			}
+			d.value(n.elems[k], fs, f.typ, true)
 		}
-		if !f.Exported() {
-			continue
-		}
-		if name == "" {
-			name = f.Name()
-		}
-		if opts == "omitempty" && isEmptyJSON(s[i]) {
-			continue
-		}
-		if !*first {
-			e.str(",")
-		}
-		*first = false
-		e.str(strconv.Quote(name) + ":")
-		e.encode(s[i], f.Type(), depth+1)
+	default:
+		d.typeError("object", t)
 	}
+}
+
+// (*Decoder).Decode: the reader is drained, one value is taken from the front
+// of the buffered bytes and the rest stays in the decoder's buf field.
+func extJSONDecoderDecode(fr *frame, a []value) value {
+	dec := a[0].(*value)
+	pkg := fr.i.prog.ImportedPackage("encoding/json")
+	dt := pkg.Type("Decoder").Type().Underlying().(*types.Struct)
+	fi := func(st *types.Struct, name string) int {
+		for i := 0; i < st.NumFields(); i++ {
+			if st.Field(i).Name() == name {
+				return i
+			}
+		}
+		panic(engineError{"json stub: Decoder field " + name + " not found"})
+	}
+	s := (*dec).(structure)
+	if errv, ok := s[fi(dt, "err")].(iface); ok && errv.t != nil {
+		return errv
+	}
+	ds := s[fi(dt, "d")].(structure)
+	dst := dt.Field(fi(dt, "d")).Type().Underlying().(*types.Struct)
+	useNumber, _ := ds[fi(dst, "useNumber")].(bool)
+	disallow, _ := ds[fi(dst, "disallowUnknownFields")].(bool)
+	buf, _ := s[fi(dt, "buf")].([]value)
+	scanp := int(asInt64(s[fi(dt, "scanp")]))
+	data := append([]value{}, buf[scanp:]...)
+	if r, ok := s[fi(dt, "r")].(iface); ok && r.t != nil {
+		ioPkg := fr.i.prog.ImportedPackage("io")
+		if ioPkg == nil {
+			panic(engineError{"json stub: package io not loaded"})
+		}
+		res := call(fr.i, fr, token.NoPos, ioPkg.Func("ReadAll"), []value{r}).(tuple)
+		more, _ := res[0].([]value)
+		data = append(data, more...)
+		if errv, ok := res[1].(iface); ok && errv.t != nil {
+			s[fi(dt, "err")] = errv
+			return errv
+		}
+		s[fi(dt, "r")] = iface{}
+	}
+	p := &jsonParser{fr: fr, d: data}
+	p.skipWS()
+	if p.pos >= len(data) {
+		s[fi(dt, "buf")] = []value{}
+		s[fi(dt, "scanp")] = int(0)
+		ioPkg := fr.i.prog.ImportedPackage("io")
+		return *fr.i.globals[ioPkg.Var("EOF")]
+	}
+	n, serr := p.parseDocument(false)
+	if serr != nil {
+		errv := jsonSyntaxError(fr, strings.TrimPrefix(serr.msg, "json: "), serr.off)
+		s[fi(dt, "err")] = errv
+		return errv
+	}
+	s[fi(dt, "buf")] = append([]value{}, data[p.pos:]...)
+	s[fi(dt, "scanp")] = int(0)
+	return jsonDecodeTop(fr, data, n, a[1].(iface), useNumber, disallow)
 }
